@@ -122,6 +122,7 @@ def ignored_notes_cannot_raise(ctx, rule):
 
 def run(ctx):
   ignored_notes_cannot_raise(ctx, 'SKIP/ignored-notes-cannot-raise')
+  onset_label_clamp(ctx, ctx.func(SL + ':sequence_to_pianoroll'))
   encoder(ctx)
   decoder(ctx)
 
@@ -290,6 +291,74 @@ def encoder(ctx):
          'the active roll is not painted with 1 over [start_frame, end_frame) x (pitch - min_pitch) from frames_from_times(start_time, end_time)')
 
 
+def start_frame_zero(ctx, fi):
+  """Location-independent: pitch_start_step holds, per sounding pitch, the frame in which its note began - frame 0 for a note that
+  begins with the roll.  Whether a pitch is sounding is membership (or a sentinel), never the *truth* of the stored frame:
+  `not pitch_start_step.get(pitch)` / `if pitch_start_step[pitch]` read a note that started in frame 0 as "not sounding"."""
+  fn = fi.node
+  pm = U.parents(fn)
+  n = 0
+  for x in ast.walk(fn):
+    val = None
+    if isinstance(x, ast.Call) and isinstance(x.func, ast.Attribute) and x.func.attr == 'get' and norm_text(x.func.value) == 'pitch_start_step' and (
+        len(x.args) == 1 or (len(x.args) == 2 and isinstance(x.args[1], ast.Constant) and x.args[1].value is None)):
+      val = x
+    elif isinstance(x, ast.Subscript) and norm_text(x.value) == 'pitch_start_step' and isinstance(x.ctx, ast.Load):
+      val = x
+    if val is None:
+      continue
+    par = pm.get(id(val))
+    tested = (isinstance(par, ast.UnaryOp) and isinstance(par.op, ast.Not)) or (isinstance(par, ast.BoolOp)) or (isinstance(par, (ast.If, ast.While, ast.IfExp)) and par.test is val)
+    if tested:
+      n += 1
+      ctx.ob('DEC/start-frame-zero-is-a-frame', fi, par if isinstance(par, ast.expr) else val, False, '%s tests the truth of the stored start frame: a note that began in frame 0 is taken for '
+             '"not sounding", so it is started again (losing its first frame) or, with onset predictions, dropped' % norm_text(par if isinstance(par, ast.expr) else val)[:70],
+             construct='sounding is membership in pitch_start_step, not the truth of the start frame', definite=True)
+  if n == 0:
+    ctx.ob('DEC/start-frame-zero-is-a-frame', fi, fn, True, 'no truth test on a stored start frame', construct='sounding is membership in pitch_start_step, not the truth of the start frame')
+
+
+def onset_label_clamp(ctx, fi):
+  """Location-independent: in onset_mode 'length_ms' the onset label runs from the *delayed* start to min(delayed end, delayed
+  start + onset_length).  Both arguments of the clamp carry onset_delay_ms; clamping against the undelayed note end cuts the
+  label of a short, delayed note before it has begun.  The two arguments of the min that defines the label end are expanded and
+  compared in normal form with note.end_time + delay and note.start_time + delay + length."""
+  fn = fi.node
+  cons = 'length_ms: onset label end = min(end + delay, start + delay + length)'
+  cands = []
+  for st in U.walk_stmts(fn, into_nested=False):
+    if isinstance(st, ast.Assign) and isinstance(st.value, ast.Call) and dotted(st.value.func) == 'min' and len(st.value.args) == 2 and \
+        any(p and isinstance(t, ast.Compare) and any(isinstance(c, ast.Constant) and c.value == 'length_ms' for c in ast.walk(t)) for t, p in U.path_conditions(fn, st)):
+      cands.append(st)
+  if not cands:
+    why = 'cannot classify: no clamp min(a, b) found on the length_ms path'
+    ctx.ob('WINDOW/onset-length-clamp', fi, fn, False, why, construct=cons, unknown=why)
+    return
+  st = cands[0]
+  # expand every local except the one being re-assigned by this statement (its earlier definition is what the clamp reads)
+  tgt = norm_text(st.targets[0])
+  prev = U.reaching_def(fn, tgt, st) if isinstance(st.targets[0], ast.Name) else None
+  args = []
+  for a in st.value.args:
+    if isinstance(a, ast.Name) and a.id == tgt and prev is not None:
+      a = prev
+    args.append(U.expand_locals(fn, a, at=st))
+  try:
+    v = next(lp.target.id for lp in U.enclosing_loops(fn, st) if isinstance(lp, ast.For) and isinstance(lp.target, ast.Name))
+    want = [nf.rat(E('%s.end_time + onset_delay_ms / 1000' % v)), nf.rat(E('%s.start_time + onset_delay_ms / 1000 + onset_length_ms / 1000' % v))]
+    got = [nf.rat(a) for a in args]
+    ok = (got[0].equals(want[0]) and got[1].equals(want[1])) or (got[0].equals(want[1]) and got[1].equals(want[0]))
+    undelayed = any(g.equals(nf.rat(E('%s.end_time' % v))) for g in got)
+    ctx.ob('WINDOW/onset-length-clamp', fi, st, ok, 'the label end is min(delayed end, delayed start + length)' if ok else
+           'the onset label end is min(%s, %s): %s' % (norm_text(args[0])[:50], norm_text(args[1])[:60],
+                                                         'the note end is taken without onset_delay_ms while the label starts at the delayed start, so the label of a short delayed note is cut short or empty'
+                                                         if undelayed else 'not min(end + delay, start + delay + length)'), construct=cons, definite=undelayed,
+           unknown=None if (ok or undelayed) else 'cannot classify: the clamp arguments are %s and %s' % (norm_text(args[0])[:50], norm_text(args[1])[:50]))
+  except (nf.NFError, StopIteration):
+    why = 'cannot classify: the clamp %s' % norm_text(st)[:80]
+    ctx.ob('WINDOW/onset-length-clamp', fi, st, False, why, construct=cons, unknown=why)
+
+
 def silent_start(ctx, fi):
   """Location-independent: "with onset predictions a note begins only at a predicted onset" - for a pitch that is *not* sounding the
   start condition is the onset prediction of the frame itself.  Only for a pitch that is already sounding does the previous frame
@@ -375,6 +444,7 @@ def decoder(ctx):
   }, required=False))
   fn = fi.node
   silent_start(ctx, fi)
+  start_frame_zero(ctx, fi)
   fl = [s for s in fn.body if isinstance(s, ast.Assign) and isinstance(s.targets[0], ast.Name) and isinstance(s.value, ast.BinOp) and isinstance(s.value.op, ast.Div) and
         norm_text(s.value.right) == 'frames_per_second']
   ok = len(fl) == 1 and U.const_value(fl[0].value.left) == 1
